@@ -20,7 +20,7 @@ func init() {
 			Property: "C05",
 			Rule: "I1: every byte string of length <=4 (quick) / 5 (thorough) over a 20-symbol alphabet reaching every lexer mode, raw and spliced into the body, the header and between the nodes of a valid wrapper; " +
 				"I2: every single (quick) / pair (thorough, reduced vocabulary) of token-level mutations {delete, duplicate, transpose, replace by each token of a vocabulary} at every token position of a grammar-coverage corpus of valid scripts (one per alternative of the parser rules and per lexer mode), plus truncation at every byte; " +
-				"I3: every 2-way split of every corpus script across two readers at every byte offset, and every composition of its whole nodes into readers, plus empty / invalid readers before and after valid ones; I4: every seed over {a z 0 9 A - space é} up to length 3, the empty seed and overflow-length seeds; " +
+				"I3: every 2-way split of every corpus script across two readers at every byte offset, and every composition of its whole nodes into readers, plus empty / invalid readers before and after valid ones; I5: every indentation string over {space, tab} of length <=10 (quick) / 13 (thorough) before a content line, a comment line and a blank line in five contexts (node body, option body, after a 4-space and after a tab-indented line, if body); I4: every seed over {a z 0 9 A - space é} up to length 3, the empty seed and overflow-length seeds; " +
 				"oracle: independent validity (the generated lexer and parser run by the harness with its own error listeners: valid iff no lexer error, no parser error, no panic and the whole token stream is consumed; a multi-reader input is valid iff every reader is; a non-blank non-comment line whose indentation mixes tabs and spaces is invalid whatever the recogniser says; a seed is valid iff it is over [0-9a-z]*): " +
 				"no panic; valid => runner returned (and a first Next does not panic), invalid => error; a case is one (input, split, seed); non-trivial = input differs from a corpus script",
 			StatesMean:  "distinct (input, reader split, seed) cases; transitions = NewDialogueRunner calls",
